@@ -21,6 +21,7 @@ ANCHORS = ["State.__eq__", "Lanelet.__eq__", "Obstacle.__eq__", "Obstacle.__hash
            "TrafficSign.__eq__", "Intersection.__eq__"]
 REQUIRED = ["law.reflexive", "law.deepcopy", "law.symmetric", "law.twin", "law.perturbation", "law.hash-total",
             "law.hash-consistent", "defaults-instance", "law.kwargs-order", "law.cross-class-state", "law.optional-subsets", "law.derived-attribute-twin",
+            "coordinates-of-different-magnitude", "law.after-update_initial_state",
             "class.Polygon.large", "class.Lanelet.large"]
 ASSUMPTIONS = ["perturbations are clearly different valid values (never a reordering or a duplicate)",
                "real perturbations are >= 1e-6, i.e. far above the documented 1e-10 resolution"]
@@ -478,8 +479,13 @@ def run(ctx):
         make, perts = R[name]
         seed = rng.getrandbits(48)
 
+        def mkgen(rev=False):
+            g_ = Gen(random.Random(seed), reverse_sets=rev)
+            g_.far = (k % 3 == 2)  # coordinates of very different magnitude within one array
+            return g_
+
         def build(rev=False, pert=None, defaults=False):
-            g = Gen(random.Random(seed), reverse_sets=rev)
+            g = mkgen(rev)
             ctor, kw, dflt = make(g)
             if defaults:
                 if dflt is None:
@@ -495,6 +501,8 @@ def run(ctx):
             return ctor(**kw), kw
 
         use_defaults = (k == 0)
+        if k % 3 == 2:
+            ctx.feature("coordinates-of-different-magnitude")
         try:
             b = build(defaults=use_defaults)
             if b is None:
@@ -562,8 +570,8 @@ def run(ctx):
                         V("equal-but-hash-differs", "twin")
         # L4b the order in which keyword arguments are given is not an attribute value: same values, other order
         ctx.feature("law.kwargs-order")
-        ko = safe(lambda: make(Gen(random.Random(seed)))[0](**dict(reversed(list(
-            (make(Gen(random.Random(seed)))[2] if use_defaults else make(Gen(random.Random(seed)))[1]).items())))))
+        ko = safe(lambda: make(mkgen())[0](**dict(reversed(list(
+            (make(mkgen())[2] if use_defaults else make(mkgen())[1]).items())))))
         if ko[0] == "ok":
             r = eq_ops(x, ko[1])
             if r[0] == "ok" and r[1] != (True, True, False, False):
@@ -586,10 +594,29 @@ def run(ctx):
                     h2 = safe(hash, cs[1])
                     if h2[0] == "ok" and h2[1] != h[1]:
                         V("equal-but-hash-differs", "custom-state-with-same-attributes")
+        # L8 an obstacle whose initial state was advanced through the public update_initial_state (the history lists now
+        # hold what the obstacle had before, possibly unset values) still compares and hashes
+        if name.startswith("DynamicObstacle") and c[0] == "ok":
+            import commonroad.scenario.state as st_
+            y8 = c[1]
+            s8 = y8.initial_state
+            adv = safe(lambda: y8.update_initial_state(st_.InitialState(**dict(
+                {a_: getattr(s8, a_) for a_ in s8.attributes}, time_step=s8.time_step + 1))))
+            if adv[0] == "ok":
+                ctx.feature("law.after-update_initial_state")
+                ctx.evaluation()
+                r = eq_ops(y8, y8)
+                if r[0] == "exc":
+                    V("eq-raises-%s/after-update_initial_state" % type(r[1]).__name__, repr(r[1]))
+                elif r[1] != (True, True, False, False):
+                    V("not-reflexive/after-update_initial_state", "x==x -> %s" % (r[1],))
+                h8 = safe(hash, y8)
+                if h8[0] == "exc":
+                    V("hash-raises-%s/after-update_initial_state" % type(h8[1]).__name__, repr(h8[1]))
         # L7 every optional argument on its own / left out on its own (one-sided combinations of optional arguments):
         # such objects are built through the public constructor too, so ==, hash and deepcopy must work on them
         if not use_defaults and k % 2 == 1:
-            g7 = Gen(random.Random(seed))
+            g7 = mkgen()
             ctor7, kw7, dflt7 = make(g7)
             if dflt7 is not None:
                 optional = [p_ for p_ in kw7 if p_ not in dflt7]
